@@ -142,6 +142,10 @@ func C02(c *core.Ctx) error {
 		}
 		local := c02LocalFile([]string{cases[0].Name, cases[1].Name, cases[2].Name, cases[3].Name, cases[4].Name})
 		o, m, err := genRun(c, g, cases, "", map[string]string{"src/zz_local.go": local}, true)
+		if err == errResources {
+			c.Skip("%s: %v", g, err)
+			return
+		}
 		if err != nil {
 			c.Harness("%s: %v", g, err)
 			return
